@@ -114,6 +114,38 @@ def sym_unpack_from(fmt, buffer, offset=0):
     return sym_unpack(fmt, SBytes(buffer.items[offset:offset + need], False))
 
 
+_riter_unpack = _struct.iter_unpack
+_rpack_into = _struct.pack_into
+
+
+def sym_iter_unpack(fmt, buffer):
+    if not _real_isinstance(buffer, SBytes) or buffer.is_concrete():
+        return _riter_unpack(fmt, bytes(buffer.items) if _real_isinstance(buffer, SBytes) else buffer)
+    size = _rcalcsize(fmt)
+    if size == 0 or _real_len(buffer) % size:
+        raise _struct.error("iterative unpacking requires a buffer of a multiple of %d bytes" % size)
+    return iter([sym_unpack(fmt, SBytes(buffer.items[i:i + size], False)) for i in range(0, _real_len(buffer), size)])
+
+
+def sym_pack_into(fmt, buffer, offset, *vals):
+    if not _real_isinstance(buffer, SBytes) and not any(_real_isinstance(v, (SymInt, SymBool)) for v in vals):
+        return _rpack_into(fmt, buffer, offset, *vals)
+    bs = sym_pack(fmt, *vals)
+    n = _real_len(bs)
+    if _real_isinstance(offset, (SymInt, SymBool)):
+        offset = offset.__index__()
+    if offset < 0:
+        offset += _real_len(buffer)
+    if offset < 0 or offset + n > _real_len(buffer):
+        raise _struct.error("pack_into requires a buffer of at least %d bytes" % (offset + n))
+    if not _real_isinstance(buffer, SBytes):
+        raise EngineLimit("pack_into of symbolic values into a real buffer")
+    if not buffer.mutable:
+        raise TypeError("argument must be read-write bytes-like object, not bytes")
+    buffer.items[offset:offset + n] = list(bs.items) if _real_isinstance(bs, SBytes) else list(bs)
+    return None
+
+
 class SymStruct:
     """struct.Struct stand-in: delegates to the real object on concrete data"""
 
@@ -132,22 +164,18 @@ class SymStruct:
         return sym_unpack_from(self.format, buffer, offset)
 
     def iter_unpack(self, buffer):
-        if _real_isinstance(buffer, SBytes):
-            raise EngineLimit("Struct.iter_unpack on symbolic data")
-        return self._real.iter_unpack(buffer)
+        return sym_iter_unpack(self.format, buffer)
 
     def pack_into(self, buffer, offset, *vals):
-        if _real_isinstance(buffer, SBytes) or any(_real_isinstance(v, (SymInt, SymBool)) for v in vals):
-            bs = sym_pack(self.format, *vals)
-            buffer[offset:offset + self.size] = bs
-            return None
-        return self._real.pack_into(buffer, offset, *vals)
+        return sym_pack_into(self.format, buffer, offset, *vals)
 
 
 def preinstall():
     """must run before spacepackets is imported: module-level struct.Struct tables then hold the stand-in"""
     _struct.Struct = SymStruct
     _struct.unpack_from = sym_unpack_from
+    _struct.iter_unpack = sym_iter_unpack
+    _struct.pack_into = sym_pack_into
 
 
 # --------------------------------------------------------------------------- CRC-16/CCITT-FALSE on affine forms
@@ -252,9 +280,11 @@ def install():
     import_all()
     _struct.pack, _struct.unpack = sym_pack, sym_unpack
     _struct.unpack_from = sym_unpack_from
+    _struct.iter_unpack = sym_iter_unpack
+    _struct.pack_into = sym_pack_into
     _enum.EnumType.__call__ = _enum_call
-    from .sbytes import SymInt as _SI
-    _SI.__hash__ = lambda self: sym_hash(self)
+    from .sbytes import SymInt as _SI, smart_int_hash
+    _SI.__hash__ = smart_int_hash
     repl = {"bytes": sym_bytes, "bytearray": sym_bytearray, "isinstance": sym_isinstance,
             "int": sym_int, "bool": sym_bool, "hash": sym_hash}
     for m in lib_modules():
@@ -287,6 +317,8 @@ def uninstall():
         return
     _struct.pack, _struct.unpack = _rpack, _runpack
     _struct.unpack_from = _runpack_from
+    _struct.iter_unpack = _riter_unpack
+    _struct.pack_into = _rpack_into
     _enum.EnumType.__call__ = _real_enum_call
     for d, k, v in reversed(_saved):
         if v is _MISSING:
